@@ -121,11 +121,15 @@ impl<Body> AmendedRequest<Body> {
     }
 
     pub fn headers(&self) -> impl Iterator<Item = (&HeaderName, &HeaderValue)> {
-        self.headers
+        // The unset list only concerns the headers of the original request.
+        // Headers amended to this request are always sent.
+        let original = self
+            .request
+            .headers()
             .iter()
-            .map(|v| (&v.0, &v.1))
-            .chain(self.request.headers().iter())
-            .filter(|v| !self.unset.iter().any(|x| x == v.0))
+            .filter(|v| !self.unset.iter().any(|x| x == v.0));
+
+        self.headers.iter().map(|v| (&v.0, &v.1)).chain(original)
     }
 
     fn headers_get_all(&self, key: &'static str) -> impl Iterator<Item = &HeaderValue> {
